@@ -2,6 +2,9 @@
 //! generators) as a library, thousands of inputs per second and without rustc.
 //! Input (stdin): one request per line, tab-separated:
 //!   W  <world body> <world bools>
+//!   D  <world body> <world bools>                     (DataWorld::new only, no code generation)
+//!   C  <world body>                                   (the cfg-probing macro chain of ecs_world!)
+//!   CQ <macro> <world body> <world bools> <query args> (the cfg-probing chain of a query macro)
 //!   Q  <macro> <world body> <world bools> <query args> <query bools>
 //! Output: one JSON line per request.
 use crate::data::DataWorld;
@@ -99,6 +102,32 @@ fn run_query(mac: &str, wdata: &DataWorld, args: &str, bools: &str) -> Result<To
     r
 }
 
+/// The cfg-probing chain as a list of (predicate, literal appended under cfg(pred), literal appended
+/// under cfg(not(pred)), macro invoked next), read back from the generated tokens, plus the entry macro.
+fn chain_json(text: &str) -> String {
+    let mut items = Vec::new();
+    let mut rest = text;
+    // every link is:  # [cfg (P)] # [doc (hidden)] macro_rules ! NAME { ... => { NEXT ! (($ ($ bools ,) * LIT) , ...
+    while let Some(at) = rest.find("# [cfg (") {
+        rest = &rest[at + 8..];
+        // predicate up to the matching ")]"
+        let mut depth = 1;
+        let mut end = 0;
+        for (i, ch) in rest.char_indices() {
+            if ch == '(' { depth += 1; }
+            if ch == ')' { depth -= 1; if depth == 0 { end = i; break; } }
+        }
+        let pred = rest[..end].trim().to_string();
+        rest = &rest[end..];
+        let name = rest.find("macro_rules !").map(|m| rest[m + 13..].trim_start().split_whitespace().next().unwrap_or("?").to_string()).unwrap_or_default();
+        let lit = if let Some(b) = rest.find("$ bools ,) *") { rest[b + 12..].trim_start().split_whitespace().next().unwrap_or("?").trim_end_matches(')').to_string() } else { "?".to_string() };
+        let next = if let Some(a) = rest.find("=> {") { rest[a + 4..].trim_start().split(" !").next().unwrap_or("?").trim().to_string() } else { "?".to_string() };
+        items.push(format!("[\"{}\",\"{}\",\"{}\",\"{}\"]", esc(&pred), esc(&name), esc(&lit), esc(&next)));
+    }
+    let entry = text.rfind("__cfg_ecs_").map(|a| text[a..].split_whitespace().next().unwrap_or("?").to_string()).unwrap_or_else(|| "direct".to_string());
+    format!("{{\"links\":[{}],\"entry\":\"{}\",\"direct\":{}}}", items.join(","), esc(&entry), !text.contains("__cfg_ecs_"))
+}
+
 pub fn main() {
     let stdin = std::io::stdin();
     let stdout = std::io::stdout();
@@ -113,6 +142,33 @@ pub fn main() {
                     format!("{{\"i\":{},\"res\":\"ok\",\"world\":{},\"unsafe\":{},\"tokens\":{}}}", i, world_json(&w), count_unsafe(ts.clone()), count_tokens(ts))
                 }
                 Err(e) => format!("{{\"i\":{},\"res\":\"err\",\"msg\":\"{}\"}}", i, esc(&e)),
+            },
+            "D" => match world_data(f[1], f[2]) {
+                Ok(w) => format!("{{\"i\":{},\"res\":\"ok\",\"world\":{}}}", i, world_json(&w)),
+                Err(e) => format!("{{\"i\":{},\"res\":\"err\",\"msg\":\"{}\"}}", i, esc(&e)),
+            },
+            "C" => {
+                let ts = TokenStream::from_str(f[1]).unwrap();
+                match syn::parse2::<ParseEcsWorld>(ts.clone()) {
+                    Ok(p) => { let out = generate::generate_cfg_checks_outer("world", &p, ts); format!("{{\"i\":{},\"res\":\"ok\",\"chain\":{},\"unsafe\":{}}}", i, chain_json(&out.to_string()), count_unsafe(out)) }
+                    Err(e) => format!("{{\"i\":{},\"res\":\"err\",\"msg\":\"{}\"}}", i, esc(&format!("{}", e))),
+                }
+            }
+            "CQ" => match world_data(f[2], f[3]) {
+                Err(e) => format!("{{\"i\":{},\"res\":\"werr\",\"msg\":\"{}\"}}", i, esc(&e)),
+                Ok(w) => {
+                    let src = format!("\"{}\", {}", w.to_base64(), f[4]);
+                    let ts = TokenStream::from_str(&src).unwrap();
+                    let out = match f[1] {
+                        "find" | "find_borrow" => syn::parse2::<ParseQueryFind>(ts.clone()).map(|p| generate::generate_cfg_checks_inner(f[1], &p, ts)),
+                        "iter" | "iter_borrow" => syn::parse2::<ParseQueryIter>(ts.clone()).map(|p| generate::generate_cfg_checks_inner(f[1], &p, ts)),
+                        _ => syn::parse2::<ParseQueryIterDestroy>(ts.clone()).map(|p| generate::generate_cfg_checks_inner(f[1], &p, ts)),
+                    };
+                    match out {
+                        Ok(o) => format!("{{\"i\":{},\"res\":\"ok\",\"chain\":{},\"unsafe\":{}}}", i, chain_json(&o.to_string()), count_unsafe(o)),
+                        Err(e) => format!("{{\"i\":{},\"res\":\"err\",\"msg\":\"{}\"}}", i, esc(&format!("{}", e))),
+                    }
+                }
             },
             "Q" => match world_data(f[2], f[3]) {
                 Err(e) => format!("{{\"i\":{},\"res\":\"werr\",\"msg\":\"{}\"}}", i, esc(&e)),
